@@ -42,6 +42,21 @@ def scn_async(rnd, sid):
     return s
 
 
+def scn_relog(rnd, sid):
+    """asynchronous logging where the sink itself logs (from the logger thread): the nested calls must be handed off
+    like any other and delivered later, in order"""
+    n = rnd.choice([1, 2, 3])
+    return {"id": sid, "mode": "logger", "producers": n, "msgs": rnd.randint(2, 8), "jitter": rnd.choice([0, 20, 50]),
+            "seed": rnd.randrange(1 << 30), "sinkDelayUs": rnd.choice([0, 100]), "pre": rnd.choice([["move"], ["move", "install"]]),
+            "script": [], "script2": [], "heapctx": False, "relog": rnd.randint(1, 3), "kind": "async-relog"}
+
+
+def scn_stall(rnd, sid):
+    """synchronous logging with one handler call that takes seconds: the other threads have to wait, not give up"""
+    return {"id": sid, "mode": "logger" if sid % 2 else "bare", "producers": 3, "msgs": 2, "jitter": 0, "seed": rnd.randrange(1 << 30),
+            "sinkDelayUs": 0, "stallMs": 3400, "pre": [], "script": [], "script2": [], "heapctx": False, "kind": "sync-stall"}
+
+
 def scn_life(rnd, sid):
     """move / reset cycles while the producers are logging; sometimes a second stopper"""
     n = rnd.choice([1, 2, 2, 3, 4])
@@ -68,7 +83,11 @@ def real_ops(seq):
 # driver + translation
 # ------------------------------------------------------------------------------------------------
 
-def run_driver(bdir, scns, work, tag, timeout=1500):
+def run_driver(bdir, scns, work, tag, timeout=None):
+    # a correct run takes well under a second per scenario (plus deliberate stalls); a stuck thread must not cost the
+    # whole budget
+    if timeout is None:
+        timeout = 120 + 3 * len(scns) + sum(s.get("stallMs", 0) // 1000 * 3 for s in scns)
     work = Path(work)
     work.mkdir(parents=True, exist_ok=True)
     inp = work / f"{tag}.scn"
@@ -104,6 +123,7 @@ def run_driver(bdir, scns, work, tag, timeout=1500):
 
 def translate(scn, raw, recheck=True):
     n, k = scn["producers"], scn["msgs"]
+    relog = scn.get("relog", 0)
     script = {"M": real_ops(scn.get("pre", [])) + real_ops(scn.get("script", [])) + ["reset"],
               "S2": real_ops(scn.get("script2", []))}
     left = {t: len(v) for t, v in script.items()}
@@ -115,7 +135,8 @@ def translate(scn, raw, recheck=True):
         if kind == "Reset":
             evs.append({"e": "Reset", "scn": scn["id"],
                         "conf": {"useLogger": scn["mode"] != "bare", "recheck": recheck, "safeEnv": True, "locks": True, "eager": True},
-                        "todo": {"p%d" % p: [["p%d" % p, i] for i in range(1, k + 1)] for p in range(1, n + 1)},
+                        "todo": dict({"p%d" % p: [["p%d" % p, i] for i in range(1, k + 1)] for p in range(1, n + 1)},
+                                     **({"pw": [["pw", i] for i in range(1, relog + 1)]} if relog else {})),
                         "script": script, "app": "alive"})
         elif kind == "Op":
             ev = {"e": "Op", "t": e["t"], "op": e["op"], "ph": e["ph"], "left": 0}
@@ -143,7 +164,9 @@ def translate(scn, raw, recheck=True):
             evs.append({"e": "GateOpen"})
         elif kind == "Finished":
             info["finished"] = True
-            evs.append({"e": "Finished", "total": n * k})
+            info["gates_passed"] = e.get("gates_passed", 0)
+            info["gates_abandoned"] = e.get("gates_abandoned", 0)
+            evs.append({"e": "Finished", "total": n * k + relog})
         elif kind == "Crashed":
             info["crashed"] = True
             evs.append({"e": "Crashed", "sig": e.get("sig", 0)})
@@ -178,6 +201,68 @@ def execute(bdir, scns, work, tag):
             if done == 0:
                 break
     return out
+
+
+# ------------------------------------------------------------------------------------------------
+# TLC behaviours forced onto the real threads (spec -> implementation direction, best effort)
+# ------------------------------------------------------------------------------------------------
+
+POINTS = {"pm.enter", "pm.locked", "oth.locked", "oth.posting", "oth.posted", "oth.sync.begin", "oth.sync.end", "pm.done",
+          "wk.begin", "wk.processed", "wk.end", "rs.enter", "rs.locked", "rs.wait.unlock", "rs.quit", "rs.joined", "rs.cleared",
+          "mv.locked", "mv.started"}
+
+
+def tlc_behaviour(seed):
+    """one complete behaviour of MC_Threads_sched.cfg from TLC's simulator: (script of M, script of S2, gates)"""
+    r = C.run_tlc("MC_Threads", "MC_Threads_sched.cfg", workers=1, simulate=1, depth=500, seed=seed, timeout=300, xmx="2g")
+    if r.violation != "invariant NotFinished":
+        return None
+    import re
+    pcs = []
+    scripts = None
+    for m in re.finditer(r"/\\ pc = \[(.*?)\]", r.out, re.S):
+        d = dict(re.findall(r'(\w+) \|-> "([^"]*)"', m.group(1)))
+        pcs.append(d)
+    m = re.search(r'/\\ script = \[M \|-> <<(.*?)>>, S2 \|-> <<(.*?)>>\]', r.out)
+    if m:
+        scripts = ([x.strip().strip('"') for x in m.group(1).split(",") if x.strip()],
+                   [x.strip().strip('"') for x in m.group(2).split(",") if x.strip()])
+    if not pcs or not scripts:
+        return None
+    gates = []
+    for a, b in zip(pcs, pcs[1:]):
+        for t in b:
+            if a.get(t) != b[t] and b[t] in POINTS:
+                gates.append([t, b[t]])
+                # the code has a point before the handler mutex is taken that the model has no pc for: the thread
+                # arrives there right after the previous point and is held until it is its turn to lock
+                if b[t] == "pm.locked":
+                    gates.append([t, "oth.enter"])
+    # moveToOwnThread: mv.enter precedes mv.locked
+    out = []
+    for g in gates:
+        if g[1] == "mv.locked":
+            # arrive at mv.enter as early as possible: right after the thread's previous entry
+            k = len(out)
+            while k > 0 and out[k - 1][0] != g[0]:
+                k -= 1
+            out.insert(k, [g[0], "mv.enter"])
+        out.append(g)
+    return scripts[0], scripts[1], out
+
+
+def scn_from_behaviour(sid, beh, rnd):
+    m_script, s2_script, gates = beh
+    return {"id": sid, "mode": "logger", "producers": 2, "msgs": 2, "jitter": 0, "seed": sid, "sinkDelayUs": rnd.choice([0, 200]),
+            "pre": [], "script": [o for o in m_script if o in ("move", "reset")], "script2": [o for o in s2_script if o in ("move", "reset")],
+            "heapctx": False, "kind": "tlc-schedule", "gates": gates}
+
+
+def tlc_schedules(n, seed0):
+    from concurrent.futures import ThreadPoolExecutor
+    with ThreadPoolExecutor(max_workers=8) as ex:
+        res = list(ex.map(tlc_behaviour, [seed0 * 1000 + i for i in range(n)]))
+    return [r for r in res if r]
 
 
 # ------------------------------------------------------------------------------------------------
@@ -387,6 +472,16 @@ def run(pid, tier, seed):
         scns.append(scn_async(rnd, len(scns) + 1))
     for _ in range(nl):
         scns.append(scn_life(rnd, len(scns) + 1))
+    if pid == "C03":
+        for _ in range(8 if tier == "quick" else 120):
+            scns.append(scn_relog(rnd, len(scns) + 1))
+    if pid == "C02":
+        for _ in range(2 if tier == "quick" else 8):
+            scns.append(scn_stall(rnd, len(scns) + 1))
+    nsched = {"C02": 0, "C03": 6, "C04": 12}[pid] if tier == "quick" else {"C02": 0, "C03": 60, "C04": 150}[pid]
+    behaviours = tlc_schedules(nsched, seed) if nsched else []
+    for b in behaviours:
+        scns.append(scn_from_behaviour(len(scns) + 1, b, rnd))
     executed = execute(bdir, scns, work, f"b{seed}")
     if nc:
         executed += run_life_children(bdir, rnd, nc)
@@ -420,7 +515,8 @@ def run(pid, tier, seed):
         "evaluations": len(executed), "distinct_nontrivial": nt,
         "rule": "seeded scenarios on the real Logger / bare OwnThreadHandler<Pipeline>: 2-48 producer threads logging through "
                 "QMessageLogger, seeded jitter at every verification point and probe, slow / gated sinks, move/reset scripts on "
-                "one or two stopper threads, stop paths in child processes (application quit, explicit reset, cycles, logger "
+                "one or two stopper threads, complete behaviours drawn from TLC's simulator (MC_Threads_sched.cfg) and forced onto the real "
+                "threads point by point (best effort, then recorded and validated like the others), stop paths in child processes (application quit, explicit reset, cycles, logger "
                 "destroyed while the application lives, singleton destroyed at exit); each execution (call begin/end, points with "
                 "their scalars, probe events with every LogMessage accessor) validated by TLC against QtlThreads; non-trivial = "
                 + name,
@@ -429,6 +525,9 @@ def run(pid, tier, seed):
         "trace_events": sum(len(e) for (_, e, _) in executed), "verification_points_validated": tot("points"),
         "async_deliveries": tot("async_deliveries"), "sync_deliveries": tot("sync_deliveries"), "hand_offs": tot("posts"),
         "stop_waits_with_backlog": tot("resets_with_backlog"), "scenario_kinds": kinds,
+        "tlc_behaviours_forced_on_the_real_threads": len(behaviours),
+        "schedule_gates_honoured": sum(info.get("gates_passed", 0) for (_, _, info) in executed),
+        "schedule_gates_abandoned": sum(info.get("gates_abandoned", 0) for (_, _, info) in executed),
         "unsafe_environment_paths": unsafe, "rejected_runs": len(failures),
     }, time.time() - t0, viol, [
         "TLC and the Json/IOUtils community modules are trusted",
